@@ -394,6 +394,13 @@ def c16(ctx):
         if c in cfgs:
             rs = ctx.stage("memcheck-" + c, "cfgdiff", c + "+memcheck", mc_args, timeout=3600, jobs=8)
             ctx.counters["memcheck_cases"] = ctx.counters.get("memcheck_cases", 0) + sum(int(r.report.get("evaluations", 0)) for r in rs if r.report)
+    # the concurrent workloads of C03/C09 and C05 in a configuration none of the other checks uses (no statistics, SSE4.1, the other
+    # spin-wait variant): whatever their oracles report there - while the statistics builds are clean - depends on the build configuration
+    ns_cfgs = ["rel-nostats"] + (["dbg-nostats-asan"] if t else [])
+    for c in ns_cfgs:
+        ctx.stage("olc-" + c, "olc_conc", c, worker_args(ctx.seed + 1234, scaled(8000 if t else 480), 16, ["--prop", "C09", "--explore", "40"]), timeout=3600, adopt_violations=True)
+        ctx.stage("qsbr-" + c, "qsbr_conc", c, worker_args(ctx.seed + 2345, scaled(16000 if t else 1200), 16, ["--prop", "C05", "--execs", "40"]), timeout=3600, adopt_violations=True)
+    ctx.counters["no_statistics_concurrent_executions"] = ctx.evaluations
     ref = cfgs[0]
     compared = 0
     for c in cfgs:
@@ -523,7 +530,7 @@ def setup_specs():
         ("qsbr_free", "rel-tsan-nostats", {}), ("qsbr_free", "rel-tsan", {}), ("qsbr_free", "dbg-asan", {}),
         ("oom", "dbg-oom", OOM_BUILD),
         ("lock_conc", "dbg", {}),
-    ] + [("cfgdiff", c, {}) for c in CFG_SUBSET] + [
+    ] + [("cfgdiff", c, {}) for c in CFG_SUBSET] + [("olc_conc", "rel-nostats", {}), ("qsbr_conc", "rel-nostats", {})] + [
         ("qptr", "dbg", {}), ("qptr", "rel", {}), ("qptr", "dbg-asan", {}),
         ("mutex_lin", "rel", {"libs": ["-ldl"]}), ("mutex_lin", "rel-tsan", {"libs": ["-ldl"]}),
         ("lock_conc", "rel", {}),
